@@ -281,7 +281,9 @@ func (r *Writer) process(ops []*operation.QueuedOperation, protocolVersion uint6
 	// Sidetree spec allows for one operation per suffix in the batch
 	// Process additional operations for suffix in the next batch
 	for _, op := range anchoringInfo.AdditionalOperations {
-		if e := r.Add(op, protocolVersion); e != nil {
+		// re-queue directly: these operations were accepted earlier and must go back to the queue even if the
+		// writer has been stopped in the meantime (Writer.Add refuses new client operations after Stop)
+		if _, e := r.batchCutter.Add(op, protocolVersion); e != nil {
 			// this error should never happen since parsing of this operation has already been done for the previous batch
 			r.logger.Warn("Unable to add additional operation to the next batch",
 				logfields.WithSuffix(op.UniqueSuffix), log.WithError(e))
